@@ -93,7 +93,7 @@ def _prune(keep):
     except OSError:
         return
     ents.sort(key=lambda p: os.path.getmtime(p), reverse=True)
-    for p in ents[6:]:
+    for p in ents[12:]:
         if os.path.basename(p) != keep:
             shutil.rmtree(p, ignore_errors=True)
 
